@@ -28,6 +28,7 @@ import (
 	"strconv"
 	"strings"
 	"sync"
+	"syscall"
 	"time"
 
 	"verif/rewrite"
@@ -148,6 +149,19 @@ func buildSim(race bool) *build {
 	dir, err := os.MkdirTemp(tmpRoot, "verif-build-")
 	if err != nil {
 		fatal2("mkdtemp: %v", err)
+	}
+	// VERIF_BUILD_LOCK: serialise the snapshot of /repo's working tree with
+	// whoever else holds the lock (a script that has a deliberately broken tree
+	// applied for a while); the lock is released as soon as the binary is built
+	if lp := os.Getenv("VERIF_BUILD_LOCK"); lp != "" {
+		if lf, err := os.OpenFile(lp, os.O_CREATE|os.O_RDWR, 0o644); err == nil {
+			if syscall.Flock(int(lf.Fd()), syscall.LOCK_EX) == nil {
+				defer func() {
+					syscall.Flock(int(lf.Fd()), syscall.LOCK_UN)
+					lf.Close()
+				}()
+			}
+		}
 	}
 	b := &build{dir: dir, race: race, tree: treeFingerprint()}
 	ovDir := filepath.Join(dir, "ov")
